@@ -59,9 +59,9 @@ func loadOrig(c *ctypes.Carrier) *origParts {
 const (
 	Accepted  = "accepted"
 	Conflicts = "conflicts"
-	Rejected  = "rejected"  // refused with some other diagnostic
-	Panicked  = "panicked"  // generator panicked
-	Broken    = "broken"    // ok but files missing / unparsable / nonconforming (harness-level problem)
+	Rejected  = "rejected" // refused with some other diagnostic
+	Panicked  = "panicked" // generator panicked
+	Broken    = "broken"   // ok but files missing / unparsable / nonconforming (harness-level problem)
 )
 
 // Built is a grammar run through the real pipeline.
